@@ -459,7 +459,10 @@ func runC12(c *Ctx) {
 			}
 		}
 		good, why := true, ""
-		malts := r.flatten(mphi, nil, map[*ssa.Phi]bool{}, func(s string) bool { return strings.Contains(s, "[i]") || strings.Contains(s, "cred") })
+		var malts []alt
+		if mphi != nil {
+			malts = r.flatten(mphi, nil, map[*ssa.Phi]bool{}, func(s string) bool { return strings.Contains(s, "[i]") || strings.Contains(s, "cred") })
+		}
 		nTrue := 0
 		for _, a := range malts {
 			if a.Val == "true" {
@@ -479,6 +482,11 @@ func runC12(c *Ctx) {
 		}
 		if nTrue == 0 {
 			good, why = false, "membership is never true"
+		}
+		if mphi == nil {
+			// the class selection tests a merged value that is not a boolean flag of this function (a membership
+			// list built elsewhere and compared element by element, say): it cannot be traced to auxgid==group
+			good, why = false, "the class selection depends on "+memberPhi+", which is not a membership flag set under auxgid==group: group class can be granted on a comparison with something other than the effective gid or an auxiliary gid"
 		}
 		c.verdictIf(good, P, "member", "value", p.pos(h.Pos()), "true only when an auxiliary gid equals the object's group", why)
 	}
